@@ -194,6 +194,9 @@ class Executor(ExprMixin):
                 return self.construct(st, p[6:], args, kwargs, node)
             if p.startswith('exc:'):
                 return [(st, Static('excinst:' + p[4:]))]
+            if p.startswith('localclass:') and not args and not kwargs:
+                # instance of a field-less class defined inside the function (sentinel): an opaque value of that class
+                return [(st, V.Other(z3.IntVal(self.local_class_id(p))))]
             if p.startswith('fn:'):
                 name = p[3:]
                 if ('fn:' + name) in self.reg.externals:
@@ -388,6 +391,11 @@ class Executor(ExprMixin):
             return self.p_str(st, args[0]) if args else [(st, T.vstr(''))]
         if cname == 'bool':
             return [(st, V.Bool(self.truth(args[0])))]
+        if cname == 'object' and not args:
+            newid = fresh('oid', T.I)
+            st2 = st.add(newid == st.maxid + 1)
+            st2.maxid = newid
+            return [(st2, V.Obj(newid))]
         if cname == 'list':
             if not args:
                 s2, L = self.new_list(st, [])
@@ -1491,6 +1499,8 @@ class Executor(ExprMixin):
         st = State()
         st.maxid = fresh('maxid0', T.I)
         st = st.add(st.maxid >= 0)
+        xl = z3.Const('len_x', V)
+        st = st.add(z3.ForAll([xl], ln(xl) >= 0, patterns=[ln(xl)]))     # lengths are never negative
         fields = set(self.c.fields) | set(self.c.modifies)
         for info in self.reg.classes.values():
             fields |= set(info['fields'])
@@ -1514,8 +1524,14 @@ class Executor(ExprMixin):
         self.entry = st
         # bind python parameters: contract param names must be the function's parameter names
         fparams = [a.arg for a in self.fn.args.posonlyargs + self.fn.args.args]
+        vparams = list(getattr(self.c, 'vararg_params', ()) or ())
         if self.fn.args.vararg:
-            fparams.append(self.fn.args.vararg.arg)
+            if vparams or getattr(self.c, 'vararg_params', None) is not None:
+                # fixed-arity instance of a *args function: the extra positionals are named contract parameters
+                st = st.setenv(self.fn.args.vararg.arg, PyTuple([st.env[p] for p in vparams]))
+                fparams = fparams + vparams
+            else:
+                fparams.append(self.fn.args.vararg.arg)
         missing = [p for p in fparams if p not in self.c.params]
         for p in missing:
             a = self.fn.args
